@@ -130,6 +130,31 @@ func runC01(c *ctx) {
 		}
 	}
 
+	// 1b. documents in which one Go container is reachable at several places (a caller may build them that way):
+	//     every occurrence is a descendant / member in its own right
+	for i := 0; i < len(docs); i += 1 + len(docs)/400 {
+		sub := docs[i]
+		switch sub.(type) {
+		case map[string]interface{}, []interface{}:
+		default:
+			continue
+		}
+		shared := []interface{}{
+			map[string]interface{}{"a": []interface{}{map[string]interface{}{"b": sub}, map[string]interface{}{"b": sub}}},
+			map[string]interface{}{"a": []interface{}{[]interface{}{sub}, map[string]interface{}{"a": sub}, sub}},
+			[]interface{}{sub, sub},
+			map[string]interface{}{"a": []interface{}{sub, []interface{}{sub}}},
+		}
+		for _, d := range shared {
+			for _, p := range []string{"**", "**.a", "**.b", "a.**", "*.**", "a.b", "a.*", "$.**.b", "a.b.**", "**[]", "**.**"} {
+				c.diffEval(p, d, "shared-container")
+			}
+		}
+		if c.tooMany() {
+			return
+		}
+	}
+
 	// 2. the witnesses named in the property text and corpus seeds
 	seeds := []struct {
 		p string
@@ -257,6 +282,19 @@ func runC02(c *ctx) {
 				c.diffEval("(x)["+src+"]", doc, "pos/block")
 				c.diffEval("($v := x; $v["+src+"])", doc, "pos/var")
 			}
+		}
+		// positions at the edges of the double range: tiny negatives floor to -1, values whose sum with the length
+		// rounds, huge magnitudes, values next to integers
+		for _, pos := range []float64{-1e-17, -1e-300, -5e-324, 5e-324, 1e-17, 0.3 - 0.1 - 0.2, -0.9999999999999999, 0.9999999999999999, 1.9999999999999998,
+			-1.0000000000000002, 4.999999999999999, -4.999999999999999, 1e15, -1e15, 1e300, -1e300, 9007199254740993, -9007199254740993, 2.0000000000000004} {
+			doc := map[string]interface{}{"x": arr, "p": pos, "idx": []interface{}{0.0, pos}}
+			lit := numLit(pos)
+			for _, src := range []string{lit, "$$.p", "(" + lit + " + 0)"} {
+				c.diffEval("x["+src+"]", doc, "pos/edge")
+				c.diffEval("(x)["+src+"]", doc, "pos/edge")
+			}
+			c.diffEval("x[$$.idx]", doc, "pos/edge")
+			c.diffEval("x[0.3 - 0.1 - 0.2]", doc, "pos/edge")
 		}
 		// index arrays, duplicates, mixed
 		doc := map[string]interface{}{"x": arr, "idx": []interface{}{0.0, 2.0}, "dup": []interface{}{1.0, 1.0}, "neg": []interface{}{-1.0, 0.0}}
